@@ -165,10 +165,9 @@ class C16(Prop):
     DS_SLICING = ("ds_take", "ds_take_pos", "ds_take_scalar", "ds_ix", "ds_sel", "ds_isel", "ds_loc", "ds_take_names", "ds_getitem_var")
     DS_REINDEXING = ("ds_reindex_axis", "ds_reindex_like")
     AXIS_DIRECT = ["ax_slice", "ax_slice_all", "ax_list", "ax_bool", "ax_ndarray", "ax_take", "ax_take_clip", "ax_step"]
-    # TODO(defect): "set_self" (obj.attrs = obj.attrs) is left out: the setter clears the dictionary before it reads the
-    # value (del self.attrs; self.attrs.update(value)), so assigning an object's own attrs to it wipes its metadata instead
-    # of "replacing the content" by the same content. Append "set_self" here once repaired.
-    ATTRS_ACTIONS = ["set", "set", "set_empty", "del", "set_from_other", "set_then_getattr", "del_then_set"]
+    # "set_self" (obj.attrs = obj.attrs): the setter used to clear the dictionary before reading the value, so assigning an
+    # object's own attrs to it wiped its metadata (repaired: the value is read first)
+    ATTRS_ACTIONS = ["set", "set", "set_empty", "del", "set_from_other", "set_then_getattr", "del_then_set", "set_self"]
 
     def gen(self, rng, tier):
         n = 400 if tier == "quick" else 6000
@@ -189,12 +188,11 @@ class C16(Prop):
 
     ATTR_KEYS = ["units", "long_name", "history", "dtype", "copy", "n", "values", "name", "axes", "dims", "labels"]
     ATTR_VALS = ["K", 3, 2.5, [1, 2], {"a": 1}, "float32"]
-    # TODO(defect): an AXIS attrs entry named like a parameter of Axis.__init__ ('dtype': silently dropped and the labels
-    # cast; 'tol', 'name', 'values': TypeError "multiple values") does not survive slicing / reindexing of the axis
-    # (Axis.__getitem__ / Axis.take re-create the axis with **self.attrs) - the axis-level twin of F25 / K08. The keys
-    # are listed here and generated as soon as this flag is set.
+    # an AXIS attrs entry named like a parameter of Axis.__init__ ('dtype': was silently dropped and the labels cast;
+    # 'tol', 'name', 'values': TypeError "multiple values") must survive slicing / reindexing of the axis like any other
+    # (Axis.__getitem__ / Axis.take used to re-create the axis with **self.attrs - the axis-level twin of F25 / K08; repaired)
     AXIS_COLLIDING_KEYS = ["dtype", "tol", "name", "values"]
-    AXIS_COLLIDING_KEYS_ENABLED = False
+    AXIS_COLLIDING_KEYS_ENABLED = True
 
     def rand_attrs(self, rng, lo=1, hi=3, keys=None):
         keys = rng.sample(keys or self.ATTR_KEYS, rng.randint(lo, hi))
@@ -459,17 +457,10 @@ class C16(Prop):
             for name, at in o["axes"].items():
                 if name not in io["want_axes"]:
                     continue
-                if fn in self.DS_REINDEXING and name == "x":
-                    # TODO(defect): Dataset.reindex_axis / reindex_like (through take_axis -> reduce_axis, which builds
-                    # Axis(func(labels), name)) return the reindexed axis WITHOUT its metadata, whereas DimArray.reindex_axis
-                    # keeps it ("an axis' metadata survives ... reindexing of that axis"); skipped until decided
-                    continue
                 if at != io["want_axes"][name]:
                     bad.append("axes.attrs:not_kept")
             for k, axs in o["var_axes"].items():
                 for name, at in axs.items():
-                    if fn in self.DS_REINDEXING and name == "x":
-                        continue
                     if name in io["want_axes"] and at != io["want_axes"][name]:
                         bad.append("var.axes.attrs:not_kept")
         after = io["operand_after"]
@@ -645,12 +636,7 @@ class C16(Prop):
         return {"kind": "P", "differs": sorted(set(prop_bad)), "msg": io.get("msg"), "impl": io.get("ok")}
 
     def known(self, c, io, ans, mm, open_findings):
-        ids = {f["id"] for f in open_findings}
-        if c.get("op", "propagate") != "propagate":
-            return None
-        if "K08" in ids and ("values" in c["attrs"] or "axes" in c["attrs"]) and io.get("err") == "type" \
-                and "multiple values for argument" in (io.get("msg") or ""):
-            return "K08"
+        # (K08 - attrs keys 'values' / 'axes' made the transforms raise TypeError - is repaired: no open finding is matched here)
         return None
 
     def features(self, c, io):
